@@ -358,6 +358,8 @@ func asComplete(loc Location) Location {
 			v[i] = asComplete(u)
 		}
 		return v
+	case Complemented:
+		return Complemented{asComplete(v.Location)}
 	default:
 		return v
 	}
